@@ -251,7 +251,7 @@ func (w *World) VerifyFunc(key string) *Unit {
 				declared := false
 				if sp != nil {
 					for _, m := range sp.Modifies {
-						if rootIdent(m) == p.Name() {
+						if rootIdent(m) == p.Name() || w.renamed(fn, rootIdent(m)) == p.Name() {
 							declared = true
 						}
 					}
@@ -262,7 +262,7 @@ func (w *World) VerifyFunc(key string) *Unit {
 						pr = sp.Props
 					}
 					vc.curPos = fr.pos(fn.Pos())
-					vc.oblige(key, "frame", "no-inplace-write-to-"+p.Name(), pr, "true", "(= 0 1)")
+					vc.oblige(key, "frame", "no-inplace-write-to-"+w.lockedName(fn, p.Name()), pr, "true", "(= 0 1)")
 				}
 			}
 			fr.env[p] = v
@@ -407,7 +407,7 @@ func (w *World) VerifyFunc(key string) *Unit {
 		}
 		adjusted := final
 		for _, m := range sp.Modifies {
-			if rootIdent(m) != p.Name() {
+			if rootIdent(m) != p.Name() && w.renamed(fn, rootIdent(m)) != p.Name() {
 				continue
 			}
 			menv := fr.specEnvAt(entry, nil)
@@ -417,7 +417,7 @@ func (w *World) VerifyFunc(key string) *Unit {
 				adjusted = vc.writePath(adjusted, loc.Path, vc.readPath(init, loc.Path))
 			}
 		}
-		vc.oblige(key, "frame", p.Name(), props, retCond, eq(adjusted, init))
+		vc.oblige(key, "frame", w.lockedName(fn, p.Name()), props, retCond, eq(adjusted, init))
 	}
 	fr.postMode = false
 	return u
